@@ -44,6 +44,7 @@ type ProxyParams struct {
 	FailAt    int        `json:"fail_at"`    // role faults fire after this many envelopes were sent
 	Reattach  int        `json:"reattach"`   // 0 no, 1 re-attach the bad peer's name before its old connection fails, 2 after
 	CancelAt  int        `json:"cancel_at"`  // >0: cancel the proxy's context after this many driver steps of traffic
+	SameConn  bool       `json:"same_conn,omitempty"` // the re-attached connection is the SAME transport object, working again after the read that failed
 	Hostile   bool       `json:"hostile"`
 }
 
@@ -96,6 +97,9 @@ func genProxyRaw(hostile bool) func(g *rand.Rand, tier string) any {
 			p.Reattach = g.IntN(4) // 3: concurrently with the handling of the old connection's failure
 			if bad.Dial {
 				p.Reattach = 0
+			}
+			if p.Reattach >= 2 && bad.Role == 2 && g.IntN(3) == 0 {
+				p.SameConn = true
 			}
 			if g.IntN(3) == 0 {
 				p.CancelAt = 1 + g.IntN(120)
@@ -435,10 +439,27 @@ func execProxyRaw(e *Env, pp any) {
 		}
 	}
 	reattachDoneEv := 0
+	sameConnDone := false
 	sendStart := map[string]int{} // payload -> event number at which its sender began to write it
 	reattach := func() {
 		rp := peers["bad"]
 		if rp == nil || rp.spec.Dial {
+			return
+		}
+		if p.SameConn && rp.first != nil && rp.spec.Role == 2 && failed["bad"] && rp.first.Out.FailedReads() > 0 {
+			// (only once the proxy's Read has actually reported the failure: a failure
+			// nobody was told of has not happened)
+			sameConnDone = true
+			// the peer's transport object has recovered from the read that failed and is
+			// attached again as it is: same object, same peer-side reader
+			rp.first.Out.Heal()
+			px.AddClient("bad", rp.firstPx)
+			ev := e.Log("peer.reattached", "bad", rp.gen, "same transport")
+			histMu.Lock()
+			reattachDoneEv = ev
+			histMu.Unlock()
+			e.Note("fault.peer.reattach")
+			e.Note("fault.peer.reattach.same-transport")
 			return
 		}
 		rp.gen++
@@ -643,6 +664,24 @@ func execProxyRaw(e *Env, pp any) {
 	if p.Hostile {
 		prop = "C17"
 	}
+	if !p.Hostile {
+		// "dialling that peer on demand": no connection fails in this family, so a peer
+		// whose dial succeeded is attached for good - a second successful dial of the
+		// same name means envelopes of one source-destination pair travel on two
+		// connections, between which no order exists
+		var dup []string
+		histMu.Lock()
+		for id, n := range dials {
+			if ok := n - dialFails[id]; ok > 1 {
+				dup = append(dup, fmt.Sprintf("%s was dialled %d times (%d failed): %d connections to one peer at once", id, n, dialFails[id], ok))
+			}
+		}
+		histMu.Unlock()
+		sort.Strings(dup)
+		for _, d := range dup {
+			e.Violate(prop, "duplicate-dial", "proxy.connect", "%s", d)
+		}
+	}
 	// what each peer connection received
 	type got struct {
 		n   int
@@ -810,6 +849,11 @@ func execProxyRaw(e *Env, pp any) {
 	// 3. order per (source, destination)
 	for _, t := range taps {
 		n := t.name
+		if sameConnDone && n == "bad" {
+			// the old connection's writer and the new one's share one transport object:
+			// what the old one still had queued is not ordered against the new one's
+			continue
+		}
 		gs := recvGen[t.name][t.gen]
 		last := map[string]int{}
 		for _, g := range gs {
